@@ -83,6 +83,8 @@ def main():
     for d, _, files in sorted(os.walk(root)):
         if {"patch.diff", "demo.py", "meta.json"} <= set(files):
             rel = os.path.relpath(d, root)
+            if json.load(open(os.path.join(d, "meta.json"))).get("superseded"):
+                continue   # kept for the record only: its premise went away with a later repair of /repo
             if not only or any(rel.startswith(o) or o in rel for o in only):
                 seeds.append(d)
     claimed = None
